@@ -56,6 +56,15 @@ def base_scenarios(rng, n):
             sc["cfg"]["breaker"]["falsy"] = True  # a breaker object whose truth value means "closed"
         if k % 7 == 3:
             sc["op_two_susp"] = True
+        if k % 6 == 2:
+            sc["cfg"]["breaker"]["epoch"] = 2.0**20  # the breaker reads its own clock, a constant away from time.monotonic()
+        if k % 6 == 5:
+            # a call that is a long time in flight compared with the breaker's window: slow attempts, several of them
+            w_ = rng.choice([1.0, 2.0])
+            sc["cfg"]["breaker"]["window"] = w_
+            sc["cfg"]["deadline_s"] = 1000.0
+            c = sc["calls"][0]
+            c["durations"] = [rng.choice([w_ / 2, w_, w_ + gen.G, 2 * w_]) for _ in c["durations"]]
         # make long failing scripts common so that many callbacks are reached
         if rng.random() < 0.6:
             c = sc["calls"][0]
